@@ -200,6 +200,28 @@ func TestC13(t *testing.T) {
 
 	// (b) NULL / empty / absent in every column position of 1..10-column tables, end to end
 	rapidCheck(t, func(rt *rapid.T) {
+		switch rapid.IntRange(0, 24).Draw(rt, "part_special") {
+		case 0:
+			parallelPart(rt, rec, "C13", stringKinds)
+			return
+		case 1:
+			reannouncePart(rt, rec, "C13")
+			return
+		case 2, 3:
+			// end to end with values of any size (packets beyond the driver's buffer), compared after the stream ended
+			o := gen.DefaultHistOpt(limits(), false)
+			o.MaxUnits, o.MaxTables, o.MaxCols, o.MaxRows = 6, 2, 5, 3
+			o.BigBase = false
+			o.Col = gen.ColumnOpt{Only: []byte{refenc.TVarchar, refenc.TBlob, refenc.TString, refenc.TGeometry}}
+			c := drawE2E(rt, o)
+			rec.Case(true, c, "e2e/history-with-large-values")
+			journal("C13", "c01", c)
+			if err := checkC01(c); err != nil {
+				rec.Violation("c01", c, "", err)
+				rt.Fatalf("C13 violation: %v", err)
+			}
+			return
+		}
 		if rapid.Bool().Draw(rt, "part_direct") {
 			// (a4) random declared length x actual length x content
 			k := rapid.SampledFrom(stringKinds).Draw(rt, "kind")
